@@ -96,6 +96,7 @@ class View(object):
         self.all_pids = [p for l in self.pids.values() for p in l]
         self.kernel_live = [p.pid for p in s.k.procs.values() if p.state == "r"]
         self.kids = [p.pid for p in s.k.procs.values() if p.state == "r" and p.ppid not in (0, None)]
+        self.kid_parent = {p.pid: p.ppid for p in s.k.procs.values() if p.state == "r" and p.ppid not in (0, None)}
         self.sleepers = len(s.sleepers)
         self.next_pid = s.k.next_pid
         self.slot = arb._exclusive_running_command
@@ -226,6 +227,13 @@ def gen_request(rng, v, rid, profile):
             props["recursive"] = True
         elif rr < 0.4:
             props["childpid"] = some_pid(rng, v)
+            if v.kid_parent and rng.random() < 0.7:
+                # a worker together with one of its own children: only that child is addressed
+                kid = rng.choice(sorted(v.kid_parent))
+                props["pid"], props["childpid"] = v.kid_parent[kid], kid
+                owner = next((n for n, ps in v.pids.items() if props["pid"] in ps), None)
+                if owner is not None and rng.random() < 0.9:
+                    props["name"] = owner
         return base("signal")
     if pick(p.get("rm", 0.04)):
         props["name"] = some_name(rng, v)
